@@ -7,7 +7,7 @@ W=$(mktemp -d /tmp/yaep-replay.XXXXXX)
 trap 'rm -rf "$W"' EXIT
 bison -o "$W/sgramm.c" "$src/sgramm.y" 2>/dev/null
 for u in allocate hashtab objstack vlobject yaep; do
-  gcc -g -O1 -fsanitize=address,undefined -fno-omit-frame-pointer -std=gnu90 -I"$W" -I"$src" -c "$src/$u.c" -o "$W/$u.o" -w
+  gcc -g ${OPT:--O1} -fsanitize=address,undefined -fno-omit-frame-pointer -std=gnu90 -I"$W" -I"$src" -c "$src/$u.c" -o "$W/$u.o" -w
 done
-gcc -g -O1 -fsanitize=address,undefined -I"$src" "$drv" "$W"/*.o -o "$W/drv" -w "$@"
+gcc -g ${OPT:--O1} -fsanitize=address,undefined -I"$src" "$drv" "$W"/*.o -o "$W/drv" -w "$@"
 ASAN_OPTIONS=${ASAN_OPTIONS:-detect_leaks=1} "$W/drv"
